@@ -121,9 +121,9 @@ def multi_part(ctx, own_prefixes):
     from real import multi_real
 
     outs = [multi_real.run(3)] + ([] if ctx.quick else [multi_real.run(5), multi_real.run(2)])
-    fields = ("n", "err", "len", "members_match", "each", "pairs_ok", "single", "closed", "ids", "waitclose", "waitclose_again")
-    dflt = {"n": 0, "err": "", "len": -1, "members_match": False, "each": [], "pairs_ok": False, "single": [], "closed": False, "ids": [],
-            "waitclose": "", "waitclose_again": ""}
+    fields = ("n", "err", "len", "members_match", "each", "pairs_ok", "single", "closed", "send_each_closed", "ids", "waitclose", "all_closed_at_raise", "waitclose_again")
+    dflt = {"n": 0, "err": "", "len": -1, "members_match": False, "each": [], "pairs_ok": False, "single": [], "closed": False, "send_each_closed": "", "ids": [],
+            "waitclose": "", "all_closed_at_raise": False, "waitclose_again": ""}
     verdicts = batch.judge("MultiCases", [{k: o.get(k, dflt[k]) for k in fields} for o in outs], ctx.scratch)
     hist = {}
     for o, vd in zip(outs, verdicts):
